@@ -230,7 +230,7 @@ def coq_grid(which="helpers"):
              "Definition show (r : result) : Z * Z * string :=",
              "  match r with RVal (_, z) => (0, z, \"\") | RThrow m => (1, 0, m) | RUB w => (2, 0, w) | RFallOff => (3, 0, \"\") | RStuck w => (4, 0, w)",
              "  | RCall t vs => (match vs with [_; (_, 0)] => 6 | _ => 5 end, match vs with (_, z) :: _ => z | [] => 0 end, t)",
-             "  | RVoid => (7, 0, \"\") end.",
+             "  | RVoid => (7, 0, \"\") | RNoFuel => (8, 0, \"\") end.",
              "Definition PAIRS : list (Z * Z) := %s." % pairs, "Definition SINGLES : list Z := %s." % singles]
     jobs = []
     if which == "typed_chain":
@@ -290,7 +290,7 @@ def coq_grid(which="helpers"):
         for (a, b), (tag, z, m) in zip(keys, items):
             m = m.replace('""', '"')
             res[(fn, op, a, b)] = {"0": ("val", int(z)), "1": ("throw", m), "2": ("ub", m), "3": ("falloff",), "4": ("stuck", m),
-                                   "5": ("call", m, int(z), True), "6": ("call", m, int(z), False), "7": ("void",)}[tag]
+                                   "5": ("call", m, int(z), True), "6": ("call", m, int(z), False), "7": ("void",), "8": ("nofuel",)}[tag]
     return res, None
 
 
